@@ -74,7 +74,7 @@ class Ctx:
         self._ntlc = 0
         self._known = self._load_known()
         self._nrep = 0
-        rdir = os.path.join(VERIF, 'evidence', 'replays')
+        rdir = os.path.join(os.environ.get('VERIF_EVIDENCE_DIR') or os.path.join(VERIF, 'evidence'), 'replays')
         if os.path.isdir(rdir) and not replay:
             for fn in os.listdir(rdir):
                 if fn.startswith(prop + '-'):
@@ -132,7 +132,7 @@ class Ctx:
         for s, _ in self.violations:
             if s == sig:
                 return True
-        rdir = os.path.join(VERIF, 'evidence', 'replays')
+        rdir = os.path.join(os.environ.get('VERIF_EVIDENCE_DIR') or os.path.join(VERIF, 'evidence'), 'replays')
         os.makedirs(rdir, exist_ok=True)
         self._nrep += 1
         path = os.path.join(rdir, '%s-%d.json' % (self.prop, self._nrep))
@@ -354,8 +354,9 @@ class Ctx:
         if cov['states'] < 1 or cov['transitions'] < 1:
             # keep the file schema-valid through the generic fallback keys
             cov['evaluations'] = max(cov['evaluations'], 1)
-        os.makedirs(os.path.join(VERIF, 'evidence'), exist_ok=True)
-        p = os.path.join(VERIF, 'evidence', self.prop + '.json')
+        evdir = os.environ.get('VERIF_EVIDENCE_DIR') or os.path.join(VERIF, 'evidence')
+        os.makedirs(evdir, exist_ok=True)
+        p = os.path.join(evdir, self.prop + '.json')
         with open(p + '.tmp', 'w') as f:
             json.dump(ev, f, indent=1, default=str)
         os.replace(p + '.tmp', p)
